@@ -104,7 +104,9 @@ func setHeader(name, val string) func(r *world.Req) {
 func c19Fields(px *Proxy, idp *world.IdP, validCookie string, csrfCookie, goodState string) []c19Field {
 	name := px.Opts.Cookie.Name
 	prefix := px.Opts.ProxyPrefix
-	tgt := func(t string) c19Alt { return c19Alt{Name: "target=" + clip(t), Apply: func(r *world.Req) { r.Target = t }} }
+	tgt := func(t string) c19Alt {
+		return c19Alt{Name: "target=" + clip(t), Apply: func(r *world.Req) { r.Target = t }}
+	}
 	var targets []c19Alt
 	for _, t := range []string{
 		"/app/x?a=1", "/", "/pub", "http://app.example.com/app/abs?x=1", "/?" + strings.Repeat("q", 8000), "/a;b?c;d", "//double//slash", "/app/%2e%2e/%2F",
@@ -188,7 +190,9 @@ func c19Fields(px *Proxy, idp *world.IdP, validCookie string, csrfCookie, goodSt
 		cookies = append(cookies, ck("part-1-only", name+"_1="+val))
 	}
 
-	au := func(label, v string) c19Alt { return c19Alt{Name: "authz=" + label, Apply: setHeader("Authorization", v)} }
+	au := func(label, v string) c19Alt {
+		return c19Alt{Name: "authz=" + label, Apply: setHeader("Authorization", v)}
+	}
 	authz := []c19Alt{{Name: "authz=absent", Apply: func(r *world.Req) {}}}
 	jwt := idp.MintIDToken(idp.Users["alice"], nil)
 	full := "Bearer " + jwt
@@ -344,9 +348,9 @@ func c19Run(c *Ctx, cfg c19Config, px *Proxy, fields []c19Field, choice []int, u
 
 func init() {
 	register(&checkDef{
-		id:    "C19",
-		level: "exploration",
-		rule:  "grammar-enumerated requests: 8 fields (target incl. callback state/code/error shapes, method, Cookie incl. every mutation class at 16 positions, Authorization incl. every separator split of a valid bearer, forwarding headers, Host, body, Accept); every single choice and every pair of choices (thorough: also triples on the cookie/authz/target fields) per configuration; recover() directly around ServeHTTP; distinct_nontrivial = distinct (config, status, choice-set) that reached the handler",
+		id:          "C19",
+		level:       "exploration",
+		rule:        "grammar-enumerated requests: 8 fields (target incl. callback state/code/error shapes, method, Cookie incl. every mutation class at 16 positions, Authorization incl. every separator split of a valid bearer, forwarding headers, Host, body, Accept); every single choice and every pair of choices (thorough: also triples on the cookie/authz/target fields) per configuration; recover() directly around ServeHTTP; distinct_nontrivial = distinct (config, status, choice-set) that reached the handler",
 		assumptions: []string{"requests the net/http parser rejects never reach request handling and are counted separately", "coverage-guided mutation named in the quantifier is a different technique family and is not used"},
 		shards:      func(tier string) int { return 16 },
 		run: func(c *Ctx) {
